@@ -205,6 +205,29 @@ PROPS = {
                         "the unchanged tree)"],
         "n": {"quick": 10, "thorough": 50},
     },
+    "C05": {
+        "theorems": ["C05_complete_core", "C05_unsat_means_no_valid_schedule", "task_complete", "reqs_complete",
+                     "core_raw_complete", "noOverlapPairs_complete"],
+        "profiles": [("all", 0.5), ("frag", 0.3), ("resc", 0.2)],
+        "relevant": lambda o: True,
+        "spec": None,
+        "exact": True,
+        "run_profiles": ["frag"], "run_needs_driver": True,
+        "n_run": {"quick": 60, "thorough": 1500},
+        "run_check": __import__("harness.solverprops", fromlist=["x"]).run_c05,
+        "nontrivial": lambda s: True,
+        "rule": "ENC with exactness: on scripts of every profile the real assertion list must be the model's, or "
+                "logically equivalent to it (z3, both directions) — a witness interpretation that the model admits and "
+                "the real code rejects is reported as the failing input; RUN (completeness search): on 'frag' scripts "
+                "(the elements whose documented meaning has a complete spec twin, inside the core fragment) z3 "
+                "enumerates schedules satisfying the Lean-stated meaning (8..25 per script) and each is pinned (task "
+                "times, durations, scheduled flags, selections, applied flags, dynamic busy intervals, horizon) in the "
+                "real constraint system, which must stay satisfiable; distinct = distinct script text",
+        "assumptions": ["theorem C05_complete_core covers the core fragment (InCore); outside it completeness rests on the exact "
+                        "ENC correspondence with the model and on the known findings list",
+                        "z3 is complete on the emitted fragment (hypothesis ConsistentAns)"],
+        "n": {"quick": 200, "thorough": 3000},
+    },
     "C07": {
         "theorems": ["incLoop_spec", "C07_anytime", "C07_optimal"],
         "profiles": [("obj", 1.0)],
@@ -489,7 +512,8 @@ def run_solver_item(prop, tier, it, d, summary):
     spec = PROPS[prop]
     kind, sd, profile, size = it[:4]
     rng = random.Random(sd)
-    script, kinds = gen.gen_script(sd, profile, size=size, thorough=(tier == "thorough"), simple=True)
+    script, kinds = gen.gen_script(sd, profile, size=size, thorough=(tier == "thorough"), simple=(profile != "frag"))
+    script = [x for x in script if x["op"] != "solver"]
     label = f"{kind} seed={sd} profile={profile}"
     summary["n"] += 1
     if kind == "sm":
@@ -532,7 +556,8 @@ def run_solver_item(prop, tier, it, d, summary):
                 summary["dist"]["run_skipped_rejected_declaration"] = summary["dist"].get("run_skipped_rejected_declaration", 0) + 1
                 return
             script = good
-        viol = spec["run_check"](script, rng, summary)
+        viol = spec["run_check"](script, rng, summary, d) if spec.get("run_needs_driver") else \
+            spec["run_check"](script, rng, summary)
         if viol:
             summary["violations"].append({"label": label, "script": script, "kind": "RUN", **viol})
 
